@@ -384,7 +384,7 @@ class kLeastAbsErrors(pathmodel.AbstractPathModelDAG):
             name_prefix="ee",
             lb=0,
             # All the given weights can go through the same edge
-            ub=max(self.w_max, sum(self.solution_weights_superset)),
+            ub=max(self.w_max, sum(float(weight) for weight in self.solution_weights_superset)),
             var_type="integer" if self.weight_type == int and self._integral_flow_values else "continuous",
         )
 
